@@ -111,4 +111,15 @@ def depContext (requests : List Style) (winner : Nat) : Option Style := requests
 /-- does the dependency's context carry the invocation's deadline / cancellation? -/
 def depSeesCancel (requests : List Style) (winner : Nat) : Bool := depContext requests winner == some .ctxDeps
 
+/-- **the only sources of cancellation** of the context a dependency runs with: the invocation's deadline or SIGINT, and
+only when it was reached through CtxDeps; the failure of a sibling named in the same call is not one (runDeps passes the
+caller's context on unchanged) -/
+def depCancelled (style : Style) (deadlineHit sigHit _siblingFailed : Bool) : Bool :=
+  style == .ctxDeps && (deadlineHit || sigHit)
+
+theorem sibling_failure_never_cancels (style : Style) (dl sig : Bool) :
+    depCancelled style dl sig true = depCancelled style dl sig false := rfl
+
+theorem plain_deps_never_cancelled (dl sig sib : Bool) : depCancelled .deps dl sig sib = false := rfl
+
 end MageModel.Gen.Ctx
